@@ -1686,6 +1686,11 @@ class CheckedCoverageInstrumentation(transformer.CheckedCoverageInstrumentationA
         instr_index: int,
         instr_original_index: int,
     ) -> None:
+        # BEFORE_WITH and BEFORE_ASYNC_WITH are traced like jumps but have no target block
+        target = (
+            cfg.bytecode_cfg.get_block_index(instr.arg) if isinstance(instr.arg, BasicBlock) else -1
+        )
+
         # Instrumentation before the original instruction
         node.basic_block[before(instr_index)] = self.instructions_generator.generate_instructions(
             InstrumentationSetupAction.NO_ACTION,
@@ -1699,7 +1704,7 @@ class CheckedCoverageInstrumentation(transformer.CheckedCoverageInstrumentationA
                     InstrumentationConstantLoad(value=instr.opcode),
                     InstrumentationConstantLoad(value=instr.lineno),
                     InstrumentationConstantLoad(value=instr_original_index),
-                    InstrumentationConstantLoad(value=cfg.bytecode_cfg.get_block_index(instr.arg)),  # type: ignore[arg-type]
+                    InstrumentationConstantLoad(value=target),
                 ),
             ),
             instr.lineno,
